@@ -80,6 +80,12 @@ def SpecSet.prereleases (S : SpecSet) (it : List Member) : R (Option Bool) :=
     let b ← anyPre it
     pure (some b)
 
+/-- `if prereleases is None: prereleases = self.prereleases` (first statement of `contains` and `filter`) -/
+def SpecSet.resolve (S : SpecSet) (it : List Member) (p : Option Bool) : R (Option Bool) :=
+  match p with
+  | some b => pure (some b)
+  | none => S.prereleases it
+
 /-- Python truthiness of `bool | None` -/
 def truthy (p : Option Bool) : Bool := p.getD false
 
@@ -93,9 +99,7 @@ def allContain (v : Ver) (pre : Option Bool) : List Member → R Bool
 /-- `SpecifierSet.contains(item, prereleases, installed)` for an already parsed candidate -/
 def SpecSet.contains (S : SpecSet) (it : List Member) (cand : Ver) (pre : Option Bool) (installed : Bool) :
     R Bool := do
-  let pre ← match pre with
-    | some b => pure (some b)
-    | none => S.prereleases it
+  let pre ← S.resolve it pre
   if !(truthy pre) && cand.isPre then pure false
   else do
     let item ← if installed && cand.isPre then version cand.base else pure cand
@@ -120,9 +124,7 @@ def emptyLoop {α} (pre : Option Bool) : List (α × Ver) → (filtered found : 
 /-- `SpecifierSet.filter(iterable, prereleases)`; returns the tags of the items yielded, in order -/
 def SpecSet.filter {α} (S : SpecSet) (it : List Member) (pre : Option Bool) (items : List (α × Ver)) :
     R (List α) := do
-  let pre ← match pre with
-    | some b => pure (some b)
-    | none => S.prereleases it
+  let pre ← S.resolve it pre
   if !S.specs.isEmpty then do
     let out ← filterChain it (truthy pre) items
     pure (out.map (·.1))
